@@ -14,7 +14,7 @@
        If B has to block, B's path ends there (it would resume only after the item finished); everything B did before is checked.
    Configurations (defines):  QCONC top queue concurrent; CHAIN top queue targets a serial queue; FANIN second queue on the same bottom queue;
                               INACTIVE top queue created initially inactive; SETTARGET retarget through dispatch_set_target_queue instead of create_with_target;
-                              CHAINCONC inner level concurrent, bottom serial; BOTTOMCONC (with CHAIN) the top queue targets a custom concurrent queue.
+                              CHAINCONC inner level concurrent, bottom serial; MAINQ (with CHAIN) the bottom is the real thread-bound main queue, drained by model thread 1 through the real _dispatch_main_queue_callback_4CF; BOTTOMCONC (with CHAIN) the top queue targets a custom concurrent queue.
    Symbolic per query: which pending hand-off a worker picks, (C06) pre-loaded suspend count. */
 #include "hist.h"
 #ifndef SEQ
@@ -130,7 +130,9 @@ static void do_op(int s, int thread) {
   else if (c == 'r') { ASSERT(suspend_cnt[qi] > 0, "sequence resumes a queue that is not suspended (driver must not generate this)"); suspend_cnt[qi]--; dispatch_resume(q); }
   else if (c == 'A') { inactive[qi] = 0; dispatch_activate(q); }
   else if (c == 'T') { ASSERT(nq == 3 && qi == 0, "retarget op needs the INDEP configuration"); dispatch_set_target_queue(Q[0], Q[1]); retargeted = 1; }   /* retarget the ACTIVE top queue onto the serial queue Q[1] */
+#ifdef HAVE_SET_WIDTH
   else if (c == 'Z') { ASSERT(q_conc[qi], "set_width op needs a concurrent queue"); dispatch_queue_set_width(q, 3); }   /* change the width of the (possibly busy) concurrent queue: applied inline when idle, else by a queued barrier */
+#endif
   else if (c == 'X') { ASSERT(!released[qi], "sequence releases a queue twice (driver must not generate this)"); released[qi] = 1; dispatch_release(q); }
   else ASSERT(0, "unknown op letter");
   ir_cur = me;
@@ -170,7 +172,10 @@ void harness(void) {
   inact0 = 1;
 #endif
 #if defined(CHAIN) || defined(FANIN)
-#ifdef BOTTOMCONC
+#ifdef MAINQ
+  Q[1] = G__dispatch_main_q; q_conc[1] = 0; nq = 2;           /* the bottom of the hierarchy is the real, thread-bound main queue, bound to model thread 1 (as libdispatch_init does with _dispatch_queue_set_bound_thread) */
+  IR_ST64(Q[1] + P_OFF_dq_state, IR_LD64(Q[1] + P_OFF_dq_state) | (u64)(IR_LD32(TSD(1)) & 0x3fffffffu));
+#elif defined(BOTTOMCONC)
   Q[1] = mkqueue(1, 0, 0); q_conc[1] = 1; nq = 2;           /* the queue targeted by the top queue is a custom CONCURRENT queue (no serial domain) */
 #else
   Q[1] = mkqueue(0, 0, 0); q_conc[1] = 0; nq = 2;           /* the serial bottom queue */
@@ -236,6 +241,9 @@ void harness(void) {
     u64 st = IR_LD64(Q[k] + P_OFF_dq_state);
     ASSERT((st >> 58) + IR_LD32(Q[k] + P_OFF_side_cnt) == (u64)suspend_cnt[k], "COUNT: the queue's suspend count (inline + side) equals suspends minus resumes");
     ASSERT(((st & 0x0200000000000000ull) != 0) == (IR_LD32(Q[k] + P_OFF_side_cnt) > 0), "COUNT: side-count bit consistent with the side counter");
+#ifdef MAINQ
+    if (k == 1) { ASSERT((st & 0x3fffffffull) == (u64)(IR_LD32(TSD(1)) & 0x3fffffffu), "the thread-bound main queue stays owned by the thread it is bound to"); ASSERT(IR_LD64(Q[k] + P_OFF_items_tail) == 0, "quiescent main queue has an empty item list"); continue; }
+#endif
     ASSERT((st & 0x3fffffffull) == 0, "quiescent queue has no drain owner");
     if (suspend_cnt[k] == 0 && !inactive[k]) ASSERT(IR_LD64(Q[k] + P_OFF_items_tail) == 0, "quiescent runnable queue has an empty item list");
     if (suspend_cnt[k] == 0 && !inactive[k]) ASSERT(((st >> 41) & 0x1fff) == 0x1000ull - (u64)IR_LD16(Q[k] + P_OFF_dq_width) && !(st & (0x0040000000000000ull | 0x0000010000000000ull)),
